@@ -251,61 +251,114 @@ func fillVal(l int, seed int) []byte {
 	return v
 }
 
-// hin: the byte stream HashInto feeds for one component.  spec = x:<hex> (explicit value) or f:<len>:<seed> (value byte
-// i = seed+i mod 256, for lengths too large to print).  Observation: stream length, the stream (whole if <= 70100 bytes,
-// else its first 64 bytes), and whether the stream ends with the value.
-func (e *emitter) hin(t uint64, spec string) {
-	var v []byte
+// value specs of the hash-input lines: x:<hex> explicit, z:<len> zero filled (zero-filled values of different lengths are
+// prefixes of one another, which is what exposes a layout that does not delimit the value)
+func specVal(spec string) ([]byte, bool) {
 	f := strings.Split(spec, ":")
-	switch {
-	case len(f) == 2 && f[0] == "x":
-		v, _ = hex.DecodeString(f[1])
-	case len(f) == 3 && f[0] == "f":
-		l, _ := strconv.Atoi(f[1])
-		sd, _ := strconv.Atoi(f[2])
-		v = fillVal(l, sd)
-	default:
+	if len(f) != 2 {
+		return nil, false
+	}
+	switch f[0] {
+	case "x":
+		v, err := hex.DecodeString(f[1])
+		return v, err == nil
+	case "z":
+		l, err := strconv.Atoi(f[1])
+		if err != nil || l < 0 || l > 1<<28 {
+			return nil, false
+		}
+		return make([]byte, l), true
+	}
+	return nil, false
+}
+
+func valSpec(v []byte) string {
+	if len(v) > 32 && len(bytes.Trim(v, "\x00")) == 0 {
+		return "z:" + strconv.Itoa(len(v))
+	}
+	return "x:" + hex.EncodeToString(v)
+}
+
+// stream records what HashInto feeds for one component; det = the same bytes are fed again for the same value held in
+// different memory (a clone) and when called a second time
+func stream(c enc.Component) (s []byte, det bool) {
+	r := &recHash{}
+	c.HashInto(r)
+	s = append([]byte(nil), r.buf...)
+	r2 := &recHash{}
+	c.Clone().HashInto(r2)
+	r3 := &recHash{}
+	c.HashInto(r3)
+	return s, bytes.Equal(s, r2.buf) && bytes.Equal(s, r3.buf)
+}
+
+// hin: the byte stream HashInto feeds for one component (layout-agnostic oracle in the runner: determinism, and
+// prefix-freeness against every other component of the run)
+func (e *emitter) hin(t uint64, spec string) {
+	v, ok := specVal(spec)
+	if !ok {
 		fmt.Fprintf(e.w, "BADINPUT HIN\n")
 		return
 	}
 	e.count("HIN")
 	obs := guard(func() string {
-		r := &recHash{}
-		enc.Component{Typ: enc.TLNum(t), Val: v}.HashInto(r)
-		head := r.buf
-		if len(head) > 70100 {
-			head = head[:64]
-		}
-		return fmt.Sprintf("%d %s %s", len(r.buf), hx(head), b01(bytes.HasSuffix(r.buf, v)))
+		s, det := stream(enc.Component{Typ: enc.TLNum(t), Val: v})
+		return hx(s) + " " + b01(det)
 	})
 	fmt.Fprintf(e.w, "HIN %d %s %s\n", t, spec, obs)
 }
 
-// hname: the concatenated HashInto streams of a name's components, and whether Name.Hash / PrefixHash / Component.Hash
-// are xxhash of exactly these streams
+// hpair: the streams of two components (replay form of a prefix-freeness failure)
+func (e *emitter) hpair(t1 uint64, spec1 string, t2 uint64, spec2 string) {
+	v1, ok1 := specVal(spec1)
+	v2, ok2 := specVal(spec2)
+	if !ok1 || !ok2 {
+		fmt.Fprintf(e.w, "BADINPUT HPAIR\n")
+		return
+	}
+	e.count("HPAIR")
+	obs := guard(func() string {
+		s1, d1 := stream(enc.Component{Typ: enc.TLNum(t1), Val: v1})
+		s2, d2 := stream(enc.Component{Typ: enc.TLNum(t2), Val: v2})
+		return hx(s1) + " " + hx(s2) + " " + b01(d1 && d2)
+	})
+	fmt.Fprintf(e.w, "HPAIR %d %s %d %s %s\n", t1, spec1, t2, spec2, obs)
+}
+
+// hname: the HashInto streams of a name's components (comma separated), and whether Name.Hash, PrefixHash[i] and
+// Component.Hash are xxhash of exactly the concatenation of these streams up to the respective component
 func (e *emitter) hname(n enc.Name) {
 	e.count("HNAME")
 	obs := guard(func() string {
-		r := &recHash{}
+		var all []byte
 		ok := true
 		ph := n.PrefixHash()
 		if len(ph) != len(n)+1 || ph[0] != xxhash.Sum64(nil) {
 			ok = false
 		}
+		parts := make([]string, len(n))
 		for i, c := range n {
-			before := len(r.buf)
-			c.HashInto(r)
-			if c.Hash() != xxhash.Sum64(r.buf[before:]) {
+			s, det := stream(c)
+			if !det {
 				ok = false
 			}
-			if i+1 < len(ph) && ph[i+1] != xxhash.Sum64(r.buf) {
+			parts[i] = hx(s)
+			all = append(all, s...)
+			if c.Hash() != xxhash.Sum64(s) {
+				ok = false
+			}
+			if i+1 < len(ph) && ph[i+1] != xxhash.Sum64(all) {
 				ok = false
 			}
 		}
-		if n.Hash() != xxhash.Sum64(r.buf) {
+		if n.Hash() != xxhash.Sum64(all) {
 			ok = false
 		}
-		return hx(r.buf) + " " + b01(ok)
+		ps := "none"
+		if len(parts) > 0 {
+			ps = strings.Join(parts, ",")
+		}
+		return ps + " " + b01(ok)
 	})
 	fmt.Fprintf(e.w, "HNAME %s %s\n", nameStr(n), obs)
 }
@@ -584,6 +637,13 @@ func (e *emitter) reexec(line string) bool {
 			panic(err)
 		}
 		e.hin(t, f[2])
+	case "HPAIR":
+		t1, err1 := strconv.ParseUint(f[1], 10, 64)
+		t2, err2 := strconv.ParseUint(f[3], 10, 64)
+		if err1 != nil || err2 != nil {
+			panic("bad HPAIR")
+		}
+		e.hpair(t1, f[2], t2, f[4])
 	case "HNAME":
 		e.hname(parseName(f[1]))
 	case "STR":
@@ -987,23 +1047,44 @@ func runSweeps(e *emitter, g *gen, thorough bool) {
 		e.pparse("/" + string([]byte{byte(b)}) + "a>")
 		e.cpparse("<a" + string([]byte{byte(b)}))
 	}
-	// hash-input layout: exact bytes fed by HashInto, every boundary value length and type
-	for _, t := range []uint64{0, 1, 8, 9, 50, 252, 253, 65535, 65536, 1<<32 - 1, 1 << 32, 1<<32 + 1, 1<<48 - 1, 1 << 48, 1 << 63, 1<<64 - 1} {
-		for _, l := range []int{0, 1, 2, 255, 256, 257, 65535, 65536, 65537} {
-			e.hin(t, fmt.Sprintf("x:%s", hex.EncodeToString(fillVal(l, int(t%251)+l))))
+	// hash-input adversarial set: the runner checks, whatever the layout, that streams are deterministic, non-empty and
+	// that no stream is a prefix of the stream of a different component.  Zero-filled values (prefixes of one another) of
+	// every small and boundary length under types that collide under plausible packings of (type, length) into fewer
+	// bits: t and t+2^16, t+2^32, t+2^48, t+2^56, t+2^63; lengths >= 65536 next to (type+1, length-65536).
+	hTypes := []uint64{0, 1, 7, 8, 9, 50, 255, 256, 65535, 65536, 65536 + 8, 65536 + 9, 1 << 32, 1<<32 + 8, 1 << 48, 1<<48 + 8, 1<<48 + 9,
+		1<<56 + 8, 1 << 63, 1<<63 + 8, 1<<64 - 1}
+	for _, t := range hTypes {
+		for _, l := range []int{0, 1, 2, 7, 8, 9, 15, 16, 17, 24, 255, 256, 257} {
+			e.hin(t, "z:"+strconv.Itoa(l))
+			e.hin(t, "x:"+hex.EncodeToString(fillVal(l, 1)))
 		}
-		e.hin(t, "f:70101:3")
 	}
-	for _, t := range []uint64{8, 9, 1 << 32} {
-		e.hin(t, "f:16777216:1")
-		e.hin(t, "f:16777217:250")
+	for _, t := range []uint64{8, 9, 65536 + 8, 1<<48 + 8} {
+		for _, l := range []int{65535, 65536, 65537, 65536 + 8, 65536 + 16, 65536 + 255} {
+			e.hin(t, "z:"+strconv.Itoa(l))
+		}
 	}
-	if thorough {
-		e.hin(8, "f:268435456:7") // 2^28
+	// values that contain what the layout itself produces: component boundaries inside a value
+	{
+		base := []enc.Component{{Typ: 8, Val: []byte{}}, {Typ: 8, Val: []byte("a")}, {Typ: 9, Val: []byte{}}, {Typ: 8, Val: make([]byte, 8)}, {Typ: 50, Val: []byte{1}}}
+		for _, c := range base {
+			sc, _ := stream(c)
+			for _, d := range base {
+				sd, _ := stream(d)
+				for _, cut := range []int{0, 8, 16, len(sc) - len(c.Val)} {
+					if cut < 0 || cut > len(sc) {
+						continue
+					}
+					v := append(append([]byte(nil), sc[cut:]...), sd...)
+					e.hin(uint64(c.Typ), valSpec(v))
+					e.hin(uint64(c.Typ), valSpec(append(append([]byte(nil), c.Val...), sd...)))
+				}
+			}
+			e.hname(enc.Name{c, c})
+		}
 	}
-	// the pair of the seeded layout defect: type T, length 65536+k vs type T+1, length k
-	e.hname(enc.Name{{Typ: 8, Val: []byte("c05")}, {Typ: 8, Val: fillVal(65536, 9)}})
-	e.hname(enc.Name{{Typ: 8, Val: []byte("c05")}, {Typ: 9, Val: []byte{}}, {Typ: 8, Val: fillVal(65528, 17)}})
+	e.hname(enc.Name{{Typ: 8, Val: []byte("c05")}, {Typ: 8, Val: make([]byte, 65536)}})
+	e.hname(enc.Name{{Typ: 8, Val: []byte("c05")}, {Typ: 9, Val: []byte{}}, {Typ: 8, Val: make([]byte, 65528)}})
 	// aliased operands: every pair of windows of one backing array (5 components, two of them equal), every shape
 	for _, full := range []enc.Name{
 		{{Typ: 8, Val: []byte("a")}, {Typ: 8, Val: []byte("b")}, {Typ: 8, Val: []byte("a")}, {Typ: 8, Val: []byte("b")}, {Typ: 50, Val: []byte{1}}},
@@ -1172,7 +1253,7 @@ func runGenerated(e *emitter, g *gen, ncases int, thorough bool) {
 		e.hname(a)
 		if len(b) > 0 {
 			c := b[g.r.Intn(len(b))]
-			e.hin(uint64(c.Typ), "x:"+hex.EncodeToString(c.Val))
+			e.hin(uint64(c.Typ), valSpec(c.Val))
 		}
 		// URI printing and the round trip
 		saved := g.huge
